@@ -7,18 +7,21 @@ CFG = {
     "theory_files": ["theories/Base/Bytes.v", "theories/Base/BytesProofs.v", "theories/Base/BytesMore.v",
                      "theories/Formats/PlyRead.v", "theories/Formats/PlyReadSpec.v", "theories/Formats/PlyReadProofs.v", "theories/Formats/PlyReadMesh.v",
                      "theories/Formats/PlyText.v", "theories/Formats/PlyTextProofs.v"],
-    "level_text": "Coq theorems about an executable model of ply.ReadMesh (header parser, per-property offsets, group "
-                  "readers, unclaimed scalars, list readers, quad fan) against a reference encoder of the PLY "
-                  "specification's grammar, for every property list / record / format; the model is tied to the Go "
-                  "code on every run by evaluating it (vm_compute) on files produced by an independent Go reference "
-                  "encoder and comparing with what ply.ReadMesh returned, and the implementation's mesh is judged "
-                  "directly against the mesh the abstract file describes",
+    "level_text": "Coq theorems about an executable model of ply.ReadMesh against a reference encoder of the PLY "
+                  "specification's grammar: END TO END read_mesh (encode a) = describe a for every abstract file in the "
+                  "quantifier (point clouds, tri/quad meshes, meshes with per-corner texture coordinates; any property "
+                  "order and uchar/int/float/double mix; uchar/int/uint counts, int/uint indices; ascii/LE/BE; header "
+                  "noise; CRLF via a Coq model of readLine + strings.Fields), composed from layout, record, group, "
+                  "unclaimed-scalar, list-reader and quad-fan theorems; the model is tied to the Go code on every run by "
+                  "evaluating it (vm_compute) on files produced by an independent Go reference encoder and comparing with "
+                  "what ply.ReadMesh returned, and the implementation's mesh is judged directly against the mesh the "
+                  "abstract file describes",
     "level_note": "Trusted: Coq kernel + vm_compute; hand-written model tied by differential correspondence only "
                   "(generator quality bounds it); number text (strconv), line splitting and '\\r' removal are Go-side: "
                   "the harness tokenises the real bytes with its own tokenizer",
-    "technique": "Coq proof (induction over property lists, records, header lines, faces) + vm_compute correspondence check",
+    "technique": "Coq proof (induction over property lists, records, header lines, faces; composition to whole files) + vm_compute correspondence check",
     "design_ref": "DESIGN.md §4 C08",
-    "n_quick": 220, "n_thorough": 3000,
+    "n_quick": 220, "n_thorough": 6000,
     "rule": "fixed corner files (3 encodings x 8 layouts: alpha before/after/between colour bytes, element face 0, int "
             "16777217 + non-float32 double, uchar scalar, quad+triangle with per-corner UVs, no vertices) + random "
             "abstract files through an independent Go reference encoder: 3-14 vertex properties from recognised groups "
